@@ -7,8 +7,10 @@ import RV.Base.Proto
   Protocol (one answer per line):
     reset <graph|cg|cgi|ds|dsu> <0|1>              -> ok
     init s p o g | reg g                            -> ok
-    insertdata n q… | deletedata n q… | deletewhere n q…        (q = s p o g)
-    modify W nd q… ni q… nu g… nn g… nw q… M F [v ne c]      M = 0 | 1 n q… (UNION branch) | 2 n v… (sub-select projection)           (nd, ni: 0 = clause absent, else count+1)
+    insertdata nb B… | deletedata nb B…      B = g nt (s p o)…   one block AS WRITTEN (g = 0: outside GRAPH;
+                                             nt = 0: an empty GRAPH block); translated by `translateQuads`
+    deletewhere n q…                                             (q = s p o g)
+    modify W nd B… ni B… nu g… nn g… nw q… M F [v ne c]      M = 0 | 1 n q… (UNION branch) | 2 n v… (sub-select projection)           (nd, ni: 0 = clause absent, else count+1)
     clear|drop S DEFAULT|NAMED|ALL|GRAPH g
     add|move|copy S src dst                          -> ok | error | skipped   (skipped = request already failed)
     tabrel b r n | tabns b r ns | tabpn ns l n        -> ok   (what written names denote; harness-owned)
@@ -91,14 +93,43 @@ def qPat? (q : Nat × Nat × Nat × Nat) : Option (TPat × GTerm) := do
 def graphNames? (gs : List Nat) : Option (List Nat) :=
   gs.mapM (fun g => if 90 ≤ g && g < 100 then some g else none)
 
-def parseModify (ns : List Nat) : Option Modify := do
+def ttpl? (a b c : Nat) : Option TTpl := do
+  let s ← tTerm? a; let p ← tTerm? b; let o ← tTerm? c
+  pure (s, p, o)
+
+def takeTriples : Nat → List Nat → Option (List TTpl × List Nat)
+  | 0, rest => some ([], rest)
+  | n + 1, a :: b :: c :: rest =>
+    match ttpl? a b c, takeTriples n rest with
+    | some t, some (ts, r) => some (t :: ts, r)
+    | _, _ => none
+  | _, _ => none
+
+/-- `nb` blocks, each `g nt (s p o)*nt`; g = 0: triples outside GRAPH, else the block's graph term -/
+def takeParts : Nat → List Nat → Option (Written × List Nat)
+  | 0, rest => some ([], rest)
+  | n + 1, g :: nt :: rest =>
+    match takeTriples nt rest with
+    | some (ts, r) =>
+      let part? : Option QPart :=
+        if g = 0 then some (.triples ts)
+        else if 40 ≤ g && g < 50 then some (.graph (.var g) ts)
+        else if 90 ≤ g && g < 100 then some (.graph (.name g) ts)
+        else none
+      match part?, takeParts n r with
+      | some p, some (ps, r') => some (p :: ps, r')
+      | _, _ => none
+    | none => none
+  | _, _ => none
+
+def parseModify (ns : List Nat) : Option WModify := do
   match ns with
   | w :: nd :: rest =>
     let withG ← gName? w
-    let (dq, rest) ← takeQuads (nd - 1) rest
+    let (dw, rest) ← takeParts (nd - 1) rest
     match rest with
     | ni :: rest =>
-      let (iq, rest) ← takeQuads (ni - 1) rest
+      let (iw, rest) ← takeParts (ni - 1) rest
       match rest with
       | nu :: rest =>
         let (us, rest) ← takeN nu rest
@@ -118,8 +149,6 @@ def parseModify (ns : List Nat) : Option Modify := do
                 let (vs, rest) ← takeN nv rest
                 if vs.all (fun v => 40 ≤ v && v < 50) then pure (WMode.proj vs, rest) else none
               | _ => none)
-            let del ← dq.mapM qTpl?
-            let ins ← iq.mapM qTpl?
             let wh ← wq.mapM qPat?
             let us ← graphNames? us
             let nm ← graphNames? nm
@@ -128,21 +157,22 @@ def parseModify (ns : List Nat) : Option Modify := do
               | [1, v, ne, c] =>
                 if 40 ≤ v && v < 50 then (dataTerm? c).map (fun t => some ⟨v, ne == 1, t⟩) else none
               | _ => none)
-            pure { withG := withG, del := if nd = 0 then none else some del,
-                   ins := if ni = 0 then none else some ins, using_ := us, named := nm,
-                   where_ := groupBlocks wh, flt := flt, wmode := wm }
+            pure { core := { withG := withG, del := none, ins := none, using_ := us, named := nm,
+                             where_ := groupBlocks wh, flt := flt, wmode := wm },
+                   del := if nd = 0 then none else some dw,
+                   ins := if ni = 0 then none else some iw }
           | _ => none
         | _ => none
       | _ => none
     | _ => none
   | _ => none
 
-def parseData (ws : List String) : Option (List QTpl) := do
+def parseData (ws : List String) : Option Written := do
   let ns ← nats? ws
   match ns with
   | n :: rest =>
-    let (qs, r) ← takeQuads n rest
-    if r.isEmpty then qs.mapM qTpl? else none
+    let (ps, r) ← takeParts n rest
+    if r.isEmpty then some ps else none
   | [] => none
 
 def target? : List String → Option Target
@@ -155,28 +185,28 @@ def target? : List String → Option Target
 def bool? (w : String) : Option Bool :=
   if w = "0" then some false else if w = "1" then some true else none
 
-def parseOp : List String → Option Op
-  | "insertdata" :: ws => (parseData ws).map Op.insertData
-  | "deletedata" :: ws => (parseData ws).map Op.deleteData
+def parseOp : List String → Option WOp
+  | "insertdata" :: ws => (parseData ws).map WOp.insertData
+  | "deletedata" :: ws => (parseData ws).map WOp.deleteData
   | "deletewhere" :: ws => do
     let ns ← nats? ws
     match ns with
     | n :: rest =>
       let (qs, r) ← takeQuads n rest
-      if r.isEmpty then (qs.mapM qPat?).map (fun ps => Op.deleteWhere (groupBlocks ps)) else none
+      if r.isEmpty then (qs.mapM qPat?).map (fun ps => WOp.other (Op.deleteWhere (groupBlocks ps))) else none
     | [] => none
   | "modify" :: ws => do
     let ns ← nats? ws
-    (parseModify ns).map Op.modify
-  | "clear" :: s :: t => do pure (Op.clear (← bool? s) (← target? t))
-  | "drop" :: s :: t => do pure (Op.drop (← bool? s) (← target? t))
+    (parseModify ns).map WOp.modify
+  | "clear" :: s :: t => do pure (WOp.other (Op.clear (← bool? s) (← target? t)))
+  | "drop" :: s :: t => do pure (WOp.other (Op.drop (← bool? s) (← target? t)))
   | [k, s, a, b] => do
     let s ← bool? s
     let a ← a.toNat?.bind gName?
     let b ← b.toNat?.bind gName?
-    if k = "add" then pure (Op.add s a b)
-    else if k = "move" then pure (Op.move s a b)
-    else if k = "copy" then pure (Op.copy s a b)
+    if k = "add" then pure (WOp.other (Op.add s a b))
+    else if k = "move" then pure (WOp.other (Op.move s a b))
+    else if k = "copy" then pure (WOp.other (Op.copy s a b))
     else none
   | _ => none
 
@@ -255,7 +285,7 @@ def step (d : DSt) : List String → DSt × String
   | ["known"] => (d, ",".intercalate ((sortBy (fun a b => decide (a < b)) d.run.st.known).map toString))
   | ws =>
     -- an operation: its IRIs are resolved against the prologue in force, then `PRun.step` runs it
-    let mk : Prologue → Option Op := fun pro => (ws.mapM (resolveTok d.tab pro)).bind parseOp
+    let mk : Prologue → Option WOp := fun pro => (ws.mapM (resolveTok d.tab pro)).bind parseOp
     match mk d.pro with
     | none => (d, "bad-op")
     | some _ =>
